@@ -112,6 +112,7 @@ theorem getChar_illformed (rd : Nat → B) (avail : Nat) (ha : 1 ≤ avail)
     (getChar rd avail).1.toInt = -((rd 0).toNat : Int) ∧ (getChar rd avail).2 = 1 := by
   have e : getChar rd avail = (-(z (rd 0)), 1) := by
     unfold getChar
+    rw [← bad_eq]
     apply gcbad
     · have := h 1 ha; rwa [window_1] at this
     · intro ⟨a, w⟩; have := h 2 a; rw [window_2] at this; exact this w
